@@ -19,6 +19,8 @@ A simulation is described by a plain (JSON-able) dict::
                    # optional: this restart ran on another process count (as in
                    # aurel's own fixtures): its own cuts / file layout, same grids
                    "levels": [{"decomp": ..., "order": ...}, ...], "per_proc": bool,
+                   # optional: variables this restart did NOT output (their file / group file is absent)
+                   "skip_vars": [aurel scalar names],
                    # optional: Carpet checkpoint files written by this restart
                    # (checkpoint.chkpt.it_<it>[.file_<c>].h5; all levels, all written
                    # variables, `ntl` time levels of which only tl=0 is the state)
@@ -222,19 +224,27 @@ class Sim:
         return os.path.join(self.outdir(restart), "all_iterations")
 
     # ---------------------------------------------------------------- write
-    def files_for(self):
-        """{file base name: [aurel scalar names it holds]}"""
+    def files_for(self, r=None):
+        """{file base name: [aurel scalar names it holds]} (of restart dict `r` if given)"""
         d = self.desc
+        skip = set((r or {}).get("skip_vars", ()))
         if d["grouped"]:
             groups = {}
             for v in d["vars"]:
                 g = VARS[v][2]
                 groups[g] = list(GROUP_MEMBERS[g])    # Carpet writes whole groups
-            return groups
-        return {VARS[v][1]: [v] for v in d["vars"]}
+            return {g: m for g, m in groups.items() if not (skip & set(m))}
+        return {VARS[v][1]: [v] for v in d["vars"] if v not in skip}
 
-    def written_vars(self):
-        return sorted({v for vs in self.files_for().values() for v in vs})
+    def written_vars(self, r=None):
+        return sorted({v for vs in self.files_for(r).values() for v in vs})
+
+    def has_var(self, var, restart):
+        """did restart number `restart` output the scalar `var`?"""
+        for r in self.desc["restarts"]:
+            if r["number"] == restart:
+                return var in self.written_vars(r)
+        return False
 
     def raw_block(self, var, it, rl, restart, chunk, c):
         """ghost-padded block of one chunk in file order [z][y][x]"""
@@ -260,7 +270,7 @@ class Sim:
             handles = {}
             per_proc = r.get("per_proc", d["per_proc"])
             try:
-                for base, members in self.files_for().items():
+                for base, members in self.files_for(r).items():
                     for rl, lev in enumerate(d["levels"]):
                         if "levels" in r:
                             lev = dict(lev, **r["levels"][rl])
@@ -316,7 +326,7 @@ class Sim:
                 lst = out.setdefault(fn, [])
                 tail = "%s rl=%d%s" % (" m=0" if d["m0"] else "", rl, " c=%d" % c if n > 1 else "")
                 iorigin = [lev["base"][0] + ch[0], lev["base"][1] + ch[1], lev["base"][2] + ch[2]]
-                names = [VARS[v][:2] + (v,) for v in self.written_vars()]
+                names = [VARS[v][:2] + (v,) for v in self.written_vars(r)]
                 if ck.get("extra"):
                     # evolved variables of other thorns that aurel is not asked for
                     names += [("ML_BSSN", "phi", None), ("GRHYDRO", "dens", None)]
@@ -326,7 +336,7 @@ class Sim:
                             blk = self.raw_block(v, it, rl, r["number"] + CHK, ch, c)
                         else:
                             # past time levels / other variables: distinct junk of the same shape
-                            blk = -(7.0e8 + 1.0e6 * tl + self.raw_block(self.written_vars()[0], it, rl, 0, ch, c) % 1.0e6)
+                            blk = -(7.0e8 + 1.0e6 * tl + self.raw_block(self.written_vars(r)[0], it, rl, 0, ch, c) % 1.0e6)
                         attrs = {"cctk_nghostzones": np.array(lev["ghost"], dtype=np.int32),
                                  "iorigin": np.array(iorigin, dtype=np.int32),
                                  "time": np.float64(self.time(it, r["number"], True) - 0.25 * tl),
@@ -477,4 +487,25 @@ def add_random_checkpoints(rng, desc, prob=0.8):
         multi = len(counts) == 1 and min(counts) >= 2
         r["checkpoints"] = {"its": its, "per_proc": multi and rng.random() < 0.6, "ntl": rng.randint(1, 3),
                             "extra": rng.random() < 0.5}
+    return desc
+
+
+def add_random_skips(rng, desc, prob=1.0):
+    """make one restart (of at least two) not output one of the requested variables (its file,
+    or the file of its group, is absent).  Restarts with checkpoints are left alone."""
+    cand = [r for r in desc["restarts"] if not r.get("checkpoints")]
+    if len(desc["restarts"]) < 2 or not cand or rng.random() >= prob:
+        return desc
+    r = rng.choice(cand)
+    comps = sorted({c for n in desc["requests"] for c in components(n)})
+    rng.shuffle(comps)
+    for c in comps:
+        # the restart must still output something (an empty restart directory is another matter)
+        if desc["grouped"]:
+            left = [v for v in desc["vars"] if VARS[v][2] != VARS[c][2]]
+        else:
+            left = [v for v in desc["vars"] if v != c]
+        if left:
+            r["skip_vars"] = [c]
+            break
     return desc
